@@ -110,6 +110,14 @@ def _loop_step_at_eof(m, fn, loop, cls):
             locs[name] = eof      # a local that caches the current token
         elif name in ("kind", "value"):
             locs[name] = const(EOFK)
+    # locals that cache the stream's current token (`x = stream.current`, refreshed by the loop):
+    # at the loop head of the EOF state they hold the EOF token
+    for a in ast.walk(fn):
+        if isinstance(a, ast.Assign) and len(a.targets) == 1 and isinstance(a.targets[0], ast.Name) and a.targets[0].id in _free_names(loop) and a.targets[0].id not in locs:
+            v = a.value
+            if (isinstance(v, ast.Attribute) and v.attr == "current" and isinstance(v.value, ast.Name) and v.value.id in ("stream", "tokens")) or \
+               (isinstance(v, ast.Call) and isinstance(v.func, ast.Name) and v.func.id == "next" and v.args and isinstance(v.args[0], ast.Name) and v.args[0].id in ("stream", "tokens")):
+                locs[a.targets[0].id] = eof
     st.locals = locs
     # locals initialised as containers before the loop hold arbitrary contents when it is reached
     from pyvc.u import SeqU
